@@ -323,6 +323,60 @@ def o_path_vs_stream(ctx):
         shutil.rmtree(d, ignore_errors=True)
 
 
+def o_batch_inputs(ctx):
+    """several inputs in one invocation of main(): each input's output files are those of the input processed alone
+    with the same options (the Options and Parameters objects are shared by the inputs of an invocation)"""
+    import glob
+    import shutil
+    import propka.run as R
+    names = ['nterm_ASP_LYS', 'pep8', 'pair_ASP_ARG', 'lig_MTX']
+    first = ctx.choice('first_input', names)
+    second = ctx.choice('second_input', [n for n in names])
+    opts = ctx.choice('options', [['-d'], [], ['-d', '--protonate-all'], ['-i', 'A:29,A:30']])
+    orig_rpf = R.read_parameter_file
+
+    def rpf(input_file, parameters):
+        p = orig_rpf(input_file, parameters)
+        for k_, v_ in M.COUPLED.items():
+            setattr(p, k_, v_)
+        return p
+
+    def outputs(d, inputs):
+        cwd = os.getcwd()
+        os.chdir(d)
+        try:
+            for n in set(inputs):
+                open(n + '.pdb', 'w').write(M.text(n))
+            R.read_parameter_file = rpf
+            # further inputs are given with -f; they are processed before the positional one
+            argv = opts + ['--quiet']
+            for n in inputs[:-1]:
+                argv += ['-f', n + '.pdb']
+            R.main([argv + [inputs[-1] + '.pdb']])
+            out = {}
+            for f in sorted(glob.glob('*')):
+                if not f.endswith('.pdb'):
+                    out[f] = '\n'.join(l for l in open(f).read().split('\n') if not l.startswith('propka'))
+            return out
+        finally:
+            R.read_parameter_file = orig_rpf
+            os.chdir(cwd)
+    d1, d2 = tempfile.mkdtemp(prefix='c03b'), tempfile.mkdtemp(prefix='c03b')
+    try:
+        alone = outputs(d1, [second])
+        batch = outputs(d2, [first, second])
+        mine = {f: t for f, t in batch.items() if f.startswith(second + '.') or f.startswith(second + '_')}
+        if first == second:
+            mine = batch
+        ctx.claim('same-output-files', sorted(mine) == sorted(alone), detail='alone %r, as second input %r' % (sorted(alone), sorted(mine)))
+        for f in alone:
+            if f in mine:
+                ctx.claim('same-output-text', mine[f] == alone[f], detail=f)
+    finally:
+        shutil.rmtree(d1, ignore_errors=True)
+        shutil.rmtree(d2, ignore_errors=True)
+
+
 def o_nccg_purity(ctx):
     """the module-level NCCG singleton answers a coupling probe from its
     arguments alone: the same probe on the singleton after an earlier probe
@@ -472,6 +526,10 @@ def obligations(tier):
     obs.append(Obligation('O4-singleton-purity[PROTONATOR]', o_protonator_purity,
                           code=['propka/group.py:PROTONATOR', 'propka/protonate.py:Protonate.protonate_atom'],
                           bounds='amide N at symbolic x after protonating an unknown element / a charged N / nothing', claim_doc='same hydrogen as a fresh Protonate object'))
+    obs.append(Obligation('O5-several-inputs-per-invocation', o_batch_inputs, code=['propka/run.py:main', 'propka/lib.py:loadOptions', 'propka/molecular_container.py:MolecularContainer.__init__',
+                                                                                 'propka/molecular_container.py:MolecularContainer.find_non_covalently_coupled_groups', 'propka/molecular_container.py:MolecularContainer.write_pka'],
+                          bounds='4 x 4 ordered pairs of micro-structures x 4 option sets (-d, none, -d --protonate-all, -i), coupling thresholds relaxed so that some inputs have coupled groups and some have none (64 concrete invocations)',
+                          kind='table-check', claim_doc='the files written for the second input, and their text apart from the date line, are those of the input run alone', max_paths=400, split_input=('first_input', 4), wall_s=170))
     obs.append(Obligation('O3-path-stream-cwd', o_path_vs_stream, code=['propka/input.py:open_file_for_reading', 'propka/input.py:read_molecule_file', 'propka/run.py:single',
                                                                         'propka/molecular_container.py:MolecularContainer.write_pka'],
                           bounds='3 micro-structures: path vs StringIO vs another working directory vs a working directory holding decoy data files (concrete runs)', kind='table-check',
